@@ -23,6 +23,8 @@ THEOREMS = [
     # node-level methods generated from tree.py / node.py on this run (Gen/AlgoNode.lean, Gen/AlgoNodeBranch.lean)
     "RefineNode.node_parent_spec", "RefineNode.node_is_root_spec", "RefineNode.node_children_spec", "RefineNode.node_is_furcation_spec",
     "RefineNode.node_is_tip_spec", "RefineNodeBranch.getTips_refines", "C08.generated_tips_childless", "C08.generated_tips_eq_tipsOf",
+    "RefineNodeBranch.nodeBranch_refines", "RefineNodeBranch.nodeBranch_shape", "RefineNodeBranch.nodeBranch_furcation",
+    "C08.generated_nodeBranch_eq_model", "C08.generated_nodeBranch_shape_partial", "C08.generated_nodeBranch_furcation",
 ]
 TRUSTED = ["hand-written models Model/Branches.lean of the traversal callbacks (tied by the c08.decomp correspondence suite)"]
 ASSUMPTIONS = ["the traversal loop is C04's machine (C04.traverse_eq_spec)", "np.setdiff1d returns the sorted ids that never occur as a parent"]
